@@ -113,6 +113,9 @@ func qtBuild(level int, box Box2, lSet []*Line2) *qtNode {
 	}
 
 	// non-leaf node
+	// A line segment on an edge shared by two child boxes goes to the right/top
+	// one. The outer edges of the child boxes are edges of this box: what is on
+	// them has been given to this box and stays in it.
 	box0 := box.quad0()
 	box1 := box.quad1()
 	box2 := box.quad2()
@@ -123,10 +126,10 @@ func qtBuild(level int, box Box2, lSet []*Line2) *qtNode {
 		halfSide: halfSide,
 		center:   center,
 		child: [4]*qtNode{
-			qtBuild(level+1, box0, box0.lineFilter(lSet)),
-			qtBuild(level+1, box1, box1.lineFilter(lSet)),
-			qtBuild(level+1, box2, box2.lineFilter(lSet)),
-			qtBuild(level+1, box3, box3.lineFilter(lSet)),
+			qtBuild(level+1, box0, box0.lineFilter(lSet, true, true)),
+			qtBuild(level+1, box1, box1.lineFilter(lSet, true, false)),
+			qtBuild(level+1, box2, box2.lineFilter(lSet, false, true)),
+			qtBuild(level+1, box3, box3.lineFilter(lSet, false, false)),
 		},
 	}
 }
